@@ -164,7 +164,7 @@ func Raw(sign int8, coef uint64, exp int) Dnum {
 // New constructs a Dnum, maximizing coef and handling exp out of range
 // Used to normalize results of operations
 func New(sign int8, coef uint64, exp int) Dnum {
-	if sign == 0 || coef == 0 || exp < expMin {
+	if sign == 0 || coef == 0 {
 		return Zero
 	} else if sign == signPosInf {
 		return PosInf
@@ -184,6 +184,9 @@ func New(sign int8, coef uint64, exp int) Dnum {
 		}
 		if exp > expMax {
 			return Inf(sign)
+		}
+		if exp < expMin {
+			return Zero
 		}
 		return Dnum{coef, sign, int8(exp)}
 	}
